@@ -110,9 +110,21 @@ def check(index, ctx):
     ctx.rule("K", "Krum: cdist(J, J) with p = 2 in exact-difference mode; per row the ascending top-k window excludes position 0 (self) and "
              "holds m - n_byzantine - 2 distances, summed; selection = indices of the n_selected lowest scores; weights = one-hot sum / n_selected; "
              "guards raise iff m < n_byzantine + 3 or m < n_selected; constructor rejects n_byzantine < 0 and n_selected < 1")
+    ctx.rule("D", "both: the mean/average is formed in the precision of the matrix — the result carries the matrix's dtype and no value derived from the matrix is converted to "
+             "another floating type on the way (a float64 Jacobian averaged in float32 is rounded, and overflows beyond 3.4e38)")
     for need in ("TrimmedMean", "Krum"):
         if need not in by_class:
             raise AnalysisError(f"anchor vanished: aggregator {need}")
+    for need in ("TrimmedMean", "Krum"):
+        for run in by_class[need]:
+            for r in _agg.returning(run):
+                if _agg.blocking_unknowns(r) or not isinstance(r.value, TV):
+                    continue  # reported by T / K
+                casts = [e for e in r.events if e["kind"] == "precision_loss"]
+                ok = r.value.dtype == "M" and not casts
+                bad = "" if ok else (f"result has dtype tag {r.value.dtype!r} instead of the matrix's" if r.value.dtype != "M" else f"{casts[0]['loc']}: {casts[0].get('why', '')}")
+                ctx.require(ok, "D", f"{need}({run.label}).forward: precision of the result", "dtype of the matrix throughout", bad,
+                            casts[0]["loc"] if casts else by_class[need][0].cls.loc())
     # attach polynomial objects of size comparisons (events carry reprs; recompute from left/right is not possible) ---------
     # --------------------------------------------------------------------------------------------------- TrimmedMean
     b = Poly.sym("trim_number")
